@@ -582,9 +582,23 @@ impl HttpContext {
                 .map(ToOwned::to_owned);
         }
 
-        // if self.method == Some(Method::Get) && request.body_size == kawa::BodySize::Empty {
-        //     request.parsing_phase = kawa::ParsingPhase::Terminated;
-        // }
+        // RFC 9112 §6.3 rule 7: a request with neither Transfer-Encoding nor
+        // Content-Length has NO body. kawa's H1 parser has just selected
+        // `ParsingPhase::Body` with `BodySize::Empty` for it, i.e. "body until
+        // close" — right for responses, wrong for requests: every byte the
+        // client pipelines behind such a request (`GET /admin HTTP/1.1 ...`)
+        // would be forwarded to the backend as the body of THIS request, and
+        // the backend would read it as a second request that sozu never
+        // routed (request smuggling, CWE-444). Terminate the request here so
+        // the bytes that follow are parsed, routed and answered as the next
+        // request. Only the H1 parser reaches this callback in `Body` phase
+        // (pkawa calls it before selecting a phase), so H2 streams, whose body
+        // is delimited by END_STREAM, are unaffected.
+        if request.body_size == kawa::BodySize::Empty
+            && request.parsing_phase == kawa::ParsingPhase::Body
+        {
+            request.parsing_phase = kawa::ParsingPhase::Terminated;
+        }
 
         let public_ip = self.public_address.ip();
         let public_port = self.public_address.port();
